@@ -11,6 +11,8 @@ embedded and httpapi splitters with their real readers, real snapshots.Store
 deciding when Checkpoint() is taken)."""
 import json
 import os
+import random
+import re
 from concurrent.futures import ThreadPoolExecutor
 
 import vlib
@@ -43,7 +45,7 @@ def load_local_known(c):
 
 def consts(kind="kinesis", ninit=2, shards=5, runners=(1, 2), maxcur=0, maxlen=40, log=False, starts=3, **dev):
     b = dict(Kind=kind, NInit=ninit, MaxShards=shards, Runners="@{" + ", ".join(map(str, runners)) + "}", MaxCur=maxcur,
-             MaxLen=maxlen, LogOn=log, MaxStarts=starts)
+             MaxLen=maxlen, LogOn=log, MaxStarts=starts, ActOn=False)
     b.update(OFF)
     b.update(dev)
     return b
@@ -63,21 +65,27 @@ def harness_cfg(cc, **extra):
 
 # -------------------------------------------------------------- TLC runs ----
 def tlc_start(jobs, workers, timeout, parallel):
-    """jobs: (constants, invariants, expect_violation, label). Starts a few TLC instances side by side (they run
-    while the replays are executed); tlc_collect adds the results."""
+    """jobs: (constants, invariants, expectation, label) or ((...), own timeout). Starts a few TLC instances side by
+    side (they run while the replays are executed); tlc_collect adds the results."""
     def one(j):
+        to, extra = timeout, ()
+        if len(j) == 2:
+            j, to = j
+            extra = ("-continue",)
         cc, invs, expect, label = j
-        return j, vlib.run_tlc("Splitter", cfg=dict(constants=cc, invariants=invs), workers=workers, timeout=timeout,
-                               name="Splitter-x")
+        return j, vlib.run_tlc("Splitter", cfg=dict(constants=cc, invariants=invs), workers=workers, timeout=to,
+                               name="Splitter-x", extra_args=extra)
     ex = ThreadPoolExecutor(max_workers=parallel)
     return ex, [ex.submit(one, j) for j in jobs]
 
 
-def tlc_collect(c, started):
+def tlc_collect(c, started, keep, seed):
     ex, futs = started
     for f in futs:
         (cc, invs, expect, label), r = f.result()
-        if expect:
+        if expect and expect.startswith("adversarial:"):
+            adversarial(c, expect.split(":")[1], cc, r, keep, seed)
+        elif expect:
             # non-vacuity: with the switch on TLC must find the counterexample
             c.add_tlc(r, label, must_hold=False)
             if r.violated != expect:
@@ -99,37 +107,75 @@ def replay_gen(c, cc, num, seed, label=None):
     return behs, res
 
 
-def pending_finish(beh):
-    """a Finish while a job checkpoint is pending (what Dev_StateAtCompletion is about)"""
-    pend = False
+def late_finish(beh):
+    """a Finish by a runner that is already past its barrier of the pending checkpoint (what Dev_StateAtCompletion is about)"""
+    pend, past = False, set()
     for s in beh:
         a = s["a"]
         if a == "StartCkpt":
-            pend = True
+            pend, past = True, set()
         elif a in ("Complete", "Start"):
             pend = False
-        elif a == "Finish" and pend:
+        elif a == "Barrier":
+            past.add(s["r"])
+        elif a == "Finish" and pend and s["r"] in past:
             return True
     return False
 
 
-def adversarial(c, switch, kinds_of_bad, cc, num, keep, seed):
+def cex_traces(out):
+    """counterexamples of an exhaustive run with ActOn and -continue: [(actions, bad records of the last state)]"""
+    traces = []
+    for chunk in out.split("Error: Invariant")[1:]:
+        states = re.split(r"\nState \d+: ", chunk)[1:]
+        steps = []
+        for st in states:
+            m = re.search(r"/\\ act = \[([^\]]*)\]", st)
+            if not m:
+                break
+            f = dict(re.findall(r'(\w+) \|-> ("?\w*"?)', m.group(1)))
+            a = f["a"].strip('"')
+            if a:
+                steps.append(dict(a=a, s=int(f["s"]), t=int(f["t"]), r=int(f["r"])))
+        else:
+            m = re.search(r"/\\ bad = (\{.*?\})\n/\\", states[-1], re.S) if states else None
+            if m:
+                bad = [dict(re.findall(r'(\w+) \|-> "?(\w+)"?', rec)) for rec in re.findall(r"\[([^\]]*)\]", m.group(1))]
+                traces.append((steps, bad))
+    return traces
+
+
+def adversarial_job(switch, shards, runners, timeout):
+    """exhaustive run with the Pre_* switch on, the last action recorded in `act`, -continue: TLC prints every
+    counterexample of the bounded graph, shortest first, until the time limit"""
+    cc = consts(ninit=2, shards=shards, runners=runners, **{switch: True})
+    cc["ActOn"] = True
+    return (cc, ["DesignOK"], "adversarial:" + switch, "Splitter counterexamples of %s (-continue, %ds)" % (brief(cc), timeout)), timeout
+
+
+def adversarial(c, switch, cc, r, keep, seed):
     """schedules only the unrepaired code admits (a Pre_* switch on): the real code must keep the property on them"""
-    cc = dict(cc, **{switch: True})
-    behs, r = vlib.gen_counterexamples("Splitter", cc, limit=40 * keep, num=num, depth=cc["MaxLen"], seed=seed, timeout=90)
-    behs = [b for b in behs if not pending_finish(b) and any(x["dev"] == switch and x["k"] in kinds_of_bad for x in b[-1].get("bad", []))]
-    behs = behs[:keep]
+    c.add_tlc(r, "Splitter counterexample export " + brief(cc), must_hold=False)
+    behs = []
+    for steps, bad in cex_traces(r.out):
+        if late_finish(steps) or not any(b.get("dev") == switch for b in bad):
+            continue
+        if any(steps[:len(o)] == o for o in behs):
+            continue
+        behs.append(steps)
+    random.Random(seed).shuffle(behs)
+    behs = sorted(behs[:keep], key=len)
     if not behs:
-        raise vlib.MachineryError("no %s counterexample behaviours generated" % switch)
+        raise vlib.MachineryError("no %s counterexample schedules exported:\n%s" % (switch, r.out[-1500:]))
     payload = dict(property="C16", family="splitter", seed=seed, config=harness_cfg(cc, Adversarial=True), behaviours=behs)
     res = vlib.run_harness("splitter", payload)
-    c.add_harness(res, payload, "Splitter adversarial: %d witness schedules of %s (%s) on the repaired code" % (len(behs), switch, "/".join(kinds_of_bad)))
+    c.add_harness(res, payload, "Splitter adversarial: %d witness schedules of %s on the repaired code" % (len(behs), switch))
 
 
 def witness(c, seed):
     """the listed finding must still be exhibited by the model (else the entry is stale)"""
     cc = consts(ninit=2, shards=4, runners=(1,), maxcur=1, maxlen=14, log=True, starts=2, **CODE)
-    behs, r = vlib.gen_counterexamples("Splitter", cc, limit=40, num=3000, depth=14, seed=seed, timeout=60)
+    behs, r = vlib.gen_counterexamples("Splitter", cc, limit=40, num=1200, depth=14, seed=seed, timeout=60)
     behs = [b for b in behs if any(x["dev"] == "Dev_StateAtCompletion" for x in b[-1].get("bad", []))][:10]
     if not behs:
         c.errors.append("the model no longer exhibits Dev_StateAtCompletion")
@@ -167,6 +213,9 @@ def assign_half(c):
     for sw in ("Dev_StateAtCompletion", "Pre_LastRegress", "Pre_ForgetWithheld"):
         cc = consts(ninit=2, shards=6 if sw == "Pre_ForgetWithheld" else 4, runners=(1,), **{sw: True})
         jobs.append((cc, ["DesignOK"], "DesignOK", "Splitter non-vacuity " + brief(cc)))
+    jobs.append(adversarial_job("Pre_LastRegress", 4, (1, 2), 8 if quick else 40))
+    jobs.append(adversarial_job("Pre_LastRegress", 7, (1,), 12 if quick else 60))
+    jobs.append(adversarial_job("Pre_ForgetWithheld", 6, (1, 2), 14 if quick else 90))
     started = tlc_start(jobs, wk, tl, par)
     c.exhaustive = True
 
@@ -177,14 +226,14 @@ def assign_half(c):
                 (consts(ninit=3, shards=8, runners=(1, 2, 3), maxcur=1, maxlen=50, log=True, starts=4, **CODE), 120),
                 (consts("embedded", ninit=3, shards=3, runners=(1, 2, 3), maxcur=3, maxlen=16, log=True, starts=3, **CODE), 100),
                 (consts("httpapi", ninit=1, shards=1, runners=(1, 2, 3), maxcur=4, maxlen=14, log=True, starts=3, **CODE), 60)]
-        adv = (2500, 30)
+        adv = 40
     else:
         gens = [(consts(ninit=n, shards=sh, runners=rs, maxcur=2, maxlen=ml, log=True, starts=st, **CODE), 500)
                 for n, sh, rs, ml, st in ((1, 5, (1, 2, 3), 40, 3), (1, 7, (2, 3), 50, 4), (2, 6, (1, 2), 44, 3), (2, 8, (1, 2, 3), 60, 4),
                                           (2, 9, (3,), 70, 5), (3, 7, (1, 2, 3), 50, 3), (3, 9, (1, 2, 3), 70, 5), (2, 7, (1,), 50, 6))]
         gens += [(consts("embedded", ninit=n, shards=n, runners=(1, 2, 3), maxcur=3, maxlen=20, log=True, starts=4, **CODE), 300) for n in (1, 2, 3, 4)]
         gens += [(consts("httpapi", ninit=1, shards=1, runners=(1, 2, 3), maxcur=5, maxlen=18, log=True, starts=4, **CODE), 200)]
-        adv = (6000, 120)
+        adv = 400
     first = None
     for i, (cc, num) in enumerate(gens):
         behs, res = replay_gen(c, cc, num, s * 1000 + i)
@@ -192,10 +241,8 @@ def assign_half(c):
             first = behs[0]
     if first:
         c.sample(dict(kind="Splitter.tla behaviour (first steps)", steps=first[:14]))
-    adversarial(c, "Pre_LastRegress", ("reread",), consts(ninit=2, shards=7, runners=(1, 2), maxcur=1, maxlen=28, log=True, starts=2, **CODE), adv[0], adv[1], s * 1000 + 71)
-    adversarial(c, "Pre_ForgetWithheld", ("lost", "early"), consts(ninit=2, shards=6, runners=(1, 2), maxcur=1, maxlen=28, log=True, starts=2, **CODE), adv[0], adv[1], s * 1000 + 72)
     witness(c, s * 1000 + 73)
-    tlc_collect(c, started)
+    tlc_collect(c, started, adv, s * 1000 + 71)
     c.assumptions.append("C16 assignment half: Kafka's splitter needs a broker and is not covered; the job's part (hook delivery, "
                          "NotifySplitsFinished forwarding, ack order) is played by the harness as jobs/job.go does it, with the real "
                          "snapshots.Store deciding when SourceSplitter.Checkpoint() is called; kinesis runners are harness-owned "
